@@ -26,6 +26,14 @@ namespace {
   struct CB {
     int v;
   };
+  // a second, unrelated conversion pair: which pair an engine registers depends on its generation,
+  // so coexisting engines hold the same NUMBER of conversions over DIFFERENT types
+  struct CC {
+    int v;
+  };
+  struct CD {
+    int v;
+  };
 
   constexpr int N_ARENA = 3;
   constexpr int N_SLOTS = 5;
@@ -75,7 +83,7 @@ namespace {
           op["k"] = J("create");
           occupied[s] = true;
         } else {
-          const int kind = int(plan.below(16));
+          const int kind = int(plan.below(18));
           switch (kind) {
           case 0:
           case 1:
@@ -117,7 +125,9 @@ namespace {
             op["i"] = J(int(plan.below(2)));
             break;
           case 13:
-            op["k"] = J(plan.chance(500) ? "conv" : "needconv");
+          case 16:
+          case 17:
+            op["k"] = J(plan.chance(400) ? "conv" : "needconv");
             break;
           case 14:
             op["k"] = J(plan.chance(600) ? "use" : "calluse");
@@ -214,6 +224,8 @@ namespace {
                 eng[s]->add(fun([bumps]() { bumps->fetch_add(1); }), "bump");
                 eng[s]->add(fun([](int v) { return CA{v}; }), "make_a");
                 eng[s]->add(fun([](const CB &b) { return b.v; }), "takes_b");
+                eng[s]->add(fun([](int v) { return CC{v}; }), "make_c");
+                eng[s]->add(fun([](const CD &d) { return d.v; }), "takes_d");
                 cnt[size_t(a)]["engines_created"] += 1;
                 if (had_engine[s] && s < N_ARENA) {
                   cnt[size_t(a)]["fault_engine_recreate_same_address"] += 1;
@@ -300,7 +312,11 @@ namespace {
                 expect(m.globs.count(i) ? "=i:" + std::to_string(m.globs[i]) : "!eval_error|Can not find object: gl" + std::to_string(i));
               } else if (k == "conv") {
                 try {
-                  e.add(type_conversion<CA, CB>([](const CA &x) { return CB{x.v + 1}; }));
+                  if (m.gen % 2 == 0) {
+                    e.add(type_conversion<CA, CB>([](const CA &x) { return CB{x.v + 1}; }));
+                  } else {
+                    e.add(type_conversion<CC, CD>([](const CC &x) { return CD{x.v + 1}; }));
+                  }
                   out = "added";
                 } catch (const exception::conversion_error &) {
                   out = "conflict";
@@ -308,7 +324,12 @@ namespace {
                 expect(m.conv ? "conflict" : "added");
                 m.conv = true;
               } else if (k == "needconv") {
-                out = eval_show(e, "takes_b(make_a(4))");
+                // this generation's own pair must work once registered; the other pair never does
+                out = eval_show(e, m.gen % 2 == 0 ? "takes_b(make_a(4))" : "takes_d(make_c(4))");
+                const std::string other = eval_show(e, m.gen % 2 == 0 ? "takes_d(make_c(4))" : "takes_b(make_a(4))");
+                if (other.rfind("!eval_error|", 0) != 0) {
+                  bad(oi, "foreign-or-wrong-value", "a conversion this engine never registered was usable: " + other);
+                }
                 if (m.conv) {
                   expect("=i:5");
                 } else if (out.rfind("!eval_error|Error calling function", 0) != 0 && out.rfind("!eval_error|Error with function dispatch", 0) != 0) {
